@@ -454,22 +454,22 @@ def machinery(ctx):
     return ms, ml, mt, helpers
 
 
-def pre(*hs):
+def pre(*hs, **kw):
     """the quantifier's universe: members of U (closed under `at`) of nesting depth <= D"""
-    out = tv.universe_axioms(TAGS)
+    out = tv.universe_axioms(TAGS, int_bound=kw.get('int_bound', True))
     for h in hs:
         out += [inU(h), depth(h) <= D]
     return out
 
 
-def run_cmp(ctx, mach, x, y, label):
+def run_cmp(ctx, mach, x, y, label, int_bound=True):
     """symbolic execution of the real cmp body on (x, y); returns (rel, raises, ex, witnesses, hyps) where rel(R) is the summary
     as a relation: some returning path is taken and R is the value it returns"""
     ms, ml, mt, helpers = mach
     wits = Witnesses()
     inline = dict(helpers); inline['cmp'] = (ms, ms.func('cmp'))
     ex = Exec(ms, [Vals({'as_primitive': as_primitive_contract, 'cmparr': cmparr_contract(wits)})], inline=inline, name=label)
-    st = State(); st.pc += pre(x, y)
+    st = State(); st.pc += pre(x, y, int_bound=int_bound)
     base = len(st.pc)
     outs = ex.run_function(st, 'cmp', [V(x), V(y)], {})
     rets = [(suffix(o.st, base), o.val) for o in outs if o.kind == 'return']
@@ -625,6 +625,14 @@ def build(ctx):
         ctx.post('cmp.nan_above_every_finite_number', hy2 + [rel_xy(R1), is_nan(x), finite(y)], R1 == 1, witness=wit2, replay=rp('cmp.nan_above'))
         ctx.post('cmp.every_finite_number_below_nan', hy2 + [rel_xy(R1), is_nan(y), finite(x)], R1 == -1, witness=wit2, replay=rp('cmp.nan_above'))
         ctx.post('cmp.two_nan_objects_compare_equal', hy2 + [rel_xy(R1), is_nan(x), is_nan(y)], R1 == 0, witness=wit2, replay=rp('cmp.nan_nan'))
+        # outside the int universe of this contract (kept visible, not claimed): with ints of any size the OverflowError of float(i) is reachable
+        _, raises_big, ex_big, _, _ = run_cmp(ctx, mach, x, y, 'cmp.unbounded_ints', int_bound=False)
+        over = [c for c, exc in raises_big if exc == 'OverflowError']
+        if not over:
+            raise OutOfSubset('float(i) no longer has an overflow path: review the |i| <= 2**53 restriction of the contract')
+        ctx.cover('cmp.outside_the_contract.int_beyond_float_range_raises_OverflowError', pre(x, y, int_bound=False) + ex_big.facts + [Or(*over)])
+        ctx.trust('domain:ints are restricted to |i| <= 2**53; outside it float(i) is inexact and from 2**1024 on cmp raises OverflowError '
+                  '(cover cmp.outside_the_contract.* shows the path is reachable: cmp(10**400, 1))')
         # vacuity / reachability
         ctx.cover('cmp.pre_satisfiable.scalars', hy2 + [tag(x) == INT_T, is_nan(y), D == 0])
         ctx.cover('cmp.pre_satisfiable.nested', hy2 + [tag(x) == TUPLE_T, tag(y) == TUPLE_T, ln(x) == 2, ln(y) == 2, tag(at(x, 0)) == LIST_T, x != y])
